@@ -1,3 +1,253 @@
-/-! # C20 — (stub: property theorems go here; see docs/BUILDING.md) -/
+import PtVerif.Proofs.AncillaryField
+import PtVerif.Proofs.LoadersMass
+import PtVerif.Model.LoaderTables
+import PtVerif.Generated.Ancillary
+/-!
+# C20 — ancillary tables are served to exactly the element or ion they belong to
+
+Model: `PtVerif.Model.Ancillary` (the five loaders as text parsers + folds, the symbol
+resolution of `fxrayatstol`, `formfactor_0/n`, Cromer-Mann `atstol`), tied to
+covalent_radius.py, crystal_structure.py, xsf.py, magnetic_ff.py, cromermann.py and
+xsf/f0_WaasKirf.dat by `harness/ptv/props/C20.py`.
+
+Part 1: every table.  Part 2: kernel-checked facts about the embedded tables.  Part 3: part 1
+on the embedded tables.
+
+Not covered: floating-point rounding; numpy's evaluation of the form factors; `eval()` of the
+Fortran argument text (the model parses the one shape the table uses); the string-level
+parse = generated rows is checked by the compiled driver.
+-/
 namespace PtVerif.C20
+open PtLoad
+
+/-! ## Part 1 — every table -/
+
+section generic
+variable {α : Type} [Mul α] [Div α] [NatCast α] [IntCast α]
+
+/-- covalent radius: an element is served the radius and 0.01 × the uncertainty of the (last)
+    Cordero line with its atomic number – lines of alternate spin states (`-`) serve nobody, so
+    where several spin states are listed the first one counts -/
+theorem covalent_radius_is_row (pre post : List CovRow) (z : Nat) (r dr : Dec)
+    (hlast : ∀ x ∈ post, covKey x ≠ some z) :
+    aget z (Cov.loadRows (α := α) (pre ++ .row z r dr :: post))
+      = some ((r.toNum : α), some (dr.toNum * (Dec.mk 1 2).toNum)) :=
+  cov_radius_last_row pre post z r dr hlast
+
+/-- … an element without a line has radius and uncertainty `None` (no binding), not a
+    neighbour's -/
+theorem covalent_radius_absent (rows : List CovRow) (z : Nat) (hz : z ≠ 0)
+    (h : ∀ x ∈ rows, covKey x ≠ some z) : aget z (Cov.loadRows (α := α) rows) = none :=
+  cov_radius_absent rows z hz h
+
+theorem covalent_radius_neutron (rows : List CovRow) (h : ∀ x ∈ rows, covKey x ≠ some 0) :
+    aget 0 (Cov.loadRows (α := α) rows) = some ((Dec.mk 20 2).toNum, none) :=
+  cov_radius_neutron rows h
+
+end generic
+
+/-- crystal structure: element Z is served slot Z of the list, elements beyond the list have
+    no attribute -/
+theorem crystal_structure_is_index (l : List (Option Crystal)) (z : Nat) :
+    aget z (Crystal.load l) = l[z]? := crystal_is_index l z
+
+/-- emission lines: the element a (last) row names by symbol is served that row -/
+theorem emission_lines_are_row (zOf : Nat → Option Nat) (pre post : List LineRow) (r : LineRow) (z : Nat)
+    (hz : zOf r.sym = some z) (hlast : ∀ x ∈ post, zOf x.sym ≠ some z) :
+    aget z (Lines.loadRows zOf (pre ++ r :: post)) = some (r.kAlpha, r.kBeta1) :=
+  lines_last_row zOf pre post r z hz hlast
+
+theorem emission_lines_absent (zOf : Nat → Option Nat) (rows : List LineRow) (z : Nat)
+    (h : ∀ x ∈ rows, zOf x.sym ≠ some z) : aget z (Lines.loadRows zOf rows) = none :=
+  lines_absent zOf rows z h
+
+/-- magnetic form factors: the tuple `jn` of charge state `(z, q)` is that of the last entry
+    with that element, charge and kind … -/
+theorem magnetic_coefficients_are_entry (zOf : Nat → Option Nat) (pre post : List MagRow) (r : MagRow)
+    (z : Nat) (hz : zOf r.sym = some z)
+    (hlast : ∀ x ∈ post, ¬(zOf x.sym = some z ∧ x.charge = r.charge ∧ x.jn = r.jn)) :
+    ((aget (z, r.charge) (Mag.loadRows zOf (pre ++ r :: post))).getD {}).get r.jn = some r.values := by
+  rw [mag_coefficients]
+  exact magSpec_last zOf z r.charge r.jn pre post r ⟨hz, rfl, rfl⟩ hlast none
+
+/-- … a kind no entry gives is not an attribute of that charge state … -/
+theorem magnetic_coefficients_absent_kind (zOf : Nat → Option Nat) (rows : List MagRow) (z q : Nat) (jn : Jn)
+    (h : ∀ x ∈ rows, ¬(zOf x.sym = some z ∧ x.charge = q ∧ x.jn = jn)) :
+    ((aget (z, q) (Mag.loadRows zOf rows)).getD {}).get jn = none := by
+  rw [mag_coefficients]
+  exact magSpec_none zOf z q jn rows h none
+
+/-- … and a charge state no entry names does not exist -/
+theorem magnetic_charge_state_absent (zOf : Nat → Option Nat) (rows : List MagRow) (z q : Nat)
+    (h : ∀ x ∈ rows, ¬(zOf x.sym = some z ∧ x.charge = q)) :
+    aget (z, q) (Mag.loadRows zOf rows) = none := mag_absent zOf rows z q h
+
+/-- Cromer-Mann: `getCMformula(symbol)` returns the (last) block with that `#S` symbol, in the
+    DABAX column order a1..a5 c b1..b5; with distinct symbols, every block is served to its own -/
+theorem cm_entry_is_block (es : List CMEntry) (hnd : (es.map (·.symbol)).Nodup) (e : CMEntry) (he : e ∈ es) :
+    aget e.symbol (CM.load es) = some e := cm_entry_of_mem es hnd e he
+
+theorem cm_entry_absent (es : List CMEntry) (s : String) (h : ∀ x ∈ es, x.symbol ≠ s) :
+    aget s (CM.load es) = none := cm_absent es s h
+
+/-- the DABAX column order: the five `a`, then `c`, then the five `b` -/
+example : parseCM ("#S  1  H\n#N 11\n#L a1  a2  a3  a4  a5  c  b1  b2  b3  b4  b5\n" ++
+      "  1 2 3 4 5 6 7 8 9 10 11\n").toList
+    = some [⟨"H", [⟨1, 0⟩, ⟨2, 0⟩, ⟨3, 0⟩, ⟨4, 0⟩, ⟨5, 0⟩], ⟨6, 0⟩, [⟨7, 0⟩, ⟨8, 0⟩, ⟨9, 0⟩, ⟨10, 0⟩, ⟨11, 0⟩]⟩] := by
+  decide +kernel
+
+/-- which entry an element or ion looks up: symbol, then the charge as `<n><+|->` -/
+example : cmKey "Fe".toList (some 0) = "Fe".toList ∧ cmKey "Fe".toList (some 3) = "Fe3+".toList
+    ∧ cmKey "O".toList (some (-2)) = "O2-".toList ∧ cmKey "Cl-".toList none = "Cl1-".toList
+    ∧ cmKey "Ca2+".toList none = "Ca2+".toList ∧ cmKey "Fe2+".toList (some 3) = "Fe3+".toList := by decide +kernel
+
+/-- for an element symbol (not ending in a digit or sign) `Xray.f0` of the element looks up the
+    symbol itself and of an ion with charge `q` the entry `symbol<|q|><+|->` -/
+theorem cm_key_of_symbol (s : Str) (c : Char) (hc : cmSuffixChar c = false) (q : Int) :
+    cmKey (s ++ [c]) (some q)
+      = if q = 0 then s ++ [c]
+        else (s ++ [c]) ++ (toString q.natAbs).toList.reverse ++ [if q > 0 then '+' else '-'] :=
+  cmKey_of_symbol s c hc q
+
+/-- the CFML symbol / charge split: one-letter symbols are recognised by the digit in second
+    place, two-letter symbols are capitalised -/
+example : splitState "V2 ".toList = some ("V".toList, 2) ∧ splitState "MN2".toList = some ("Mn".toList, 2)
+    ∧ splitState "Y0 ".toList = some ("Y".toList, 0) ∧ splitState "U3 ".toList = some ("U".toList, 3)
+    ∧ splitState "Fe2".toList = some ("Fe".toList, 2) := by decide +kernel
+
+/-- form factors follow `A e^{-a s²} + B e^{-b s²} + C e^{-c s²} + D`, `s = Q/4π` -/
+theorem formfactor_formula (A a B b C c D q : ℝ) :
+    formfactor0 [A, a, B, b, C, c, D] q
+      = some (A * Real.exp (-a * (q / (4 * Real.pi)) ^ 2) + B * Real.exp (-b * (q / (4 * Real.pi)) ^ 2)
+              + C * Real.exp (-c * (q / (4 * Real.pi)) ^ 2) + D) := formfactor0_formula A a B b C c D q
+
+theorem formfactor_n_formula (A a B b C c D q : ℝ) :
+    formfactorN [A, a, B, b, C, c, D] q
+      = some ((q / (4 * Real.pi)) ^ 2 * (A * Real.exp (-a * (q / (4 * Real.pi)) ^ 2)
+              + B * Real.exp (-b * (q / (4 * Real.pi)) ^ 2) + C * Real.exp (-c * (q / (4 * Real.pi)) ^ 2) + D)) :=
+  formfactorN_formula A a B b C c D q
+
+/-- higher orders vanish at Q = 0 -/
+theorem jn_zero_at_Q0 (A a B b C c D : ℝ) : formfactorN [A, a, B, b, C, c, D] 0 = some 0 :=
+  formfactorN_at_zero A a B b C c D
+
+/-- a `<j0>` form factor is `A + B + C + D` at Q = 0 -/
+theorem j0_at_Q0 (A a B b C c D : ℝ) : formfactor0 [A, a, B, b, C, c, D] 0 = some (A + B + C + D) :=
+  formfactor0_at_zero A a B b C c D
+
+/-- Cromer-Mann at Q = 0: `Σ aᵢ + c` (the number of electrons of the atom or ion) -/
+theorem f0_at_Q0 (a b : List ℝ) (c : ℝ) (h : a.length ≤ b.length) : cmAtStol a b c 0 = a.sum + c :=
+  cmAtStol_zero a b c h
+
+/-! ## Part 2 — the embedded tables (kernel-checked on every run) -/
+
+/-- Cordero: the atomic numbers of the lines that are not alternate spin states are strictly
+    increasing, hence each element has one line -/
+theorem cordero_keys_sorted : incr (PtGen.corderoRows.filterMap covKey) = true := by decide +kernel
+
+theorem cordero_rows_exist : Cov.rowsOk symOf PtGen.corderoRows = true := by decide +kernel
+
+/-- crystal structures: the list is not longer than the table -/
+theorem crystal_list_fits : Crystal.ok symOf PtGen.crystalList = true := by decide +kernel
+
+/-- emission lines: every symbol names an element, no element is named twice -/
+theorem lines_symbols_known : Lines.rowsOk zOf PtGen.lineRows = true := by decide +kernel
+
+theorem lines_elements_distinct : (PtGen.lineRows.filterMap fun r => zOf r.sym).Nodup := by decide +kernel
+
+/-- CFML: every entry names an element and has seven numbers -/
+theorem mag_rows_ok :
+    PtGen.magRows.all (fun r => (zOf r.sym).isSome && r.values.length == 7) = true := by decide +kernel
+
+/-- **every `<j0>` set sums to 1 within 0.5 %**: `|A + B + C + D − 1| ≤ 0.005` -/
+theorem j0_sets_normalised :
+    PtGen.magRows.all (fun r => r.jn != .j0 || j0Ok r.values) = true := by decide +kernel
+
+/-- f0_WaasKirf.dat: entries (Z, charge | valence) are pairwise distinct -/
+theorem cm_atoms_distinct : PtGen.cmAtoms.Nodup := by decide +kernel
+
+theorem cm_lengths : PtGen.cmEntries.length = PtGen.cmAtoms.length := by decide +kernel
+
+/-- the `#S` symbols are pairwise distinct -/
+theorem cm_symbols_distinct : (PtGen.cmEntries.map (·.symbol)).Nodup := by decide +kernel
+
+/-- CFML: entries that name the same element, charge and kind carry the same numbers (the one
+    repeated entry, `JHO2`, is an exact duplicate), so it does not matter which one is served -/
+theorem mag_duplicates_agree : magAgree zOf PtGen.magRows = true := by decide +kernel
+
+/-- **every entry that names an atom or ion has `|Σa + c − (Z − q)| ≤ 0.05`** – the block of
+    numbers belongs to the element and charge its `#S` line names -/
+theorem cm_entries_match_their_atom :
+    (PtGen.cmEntries.zip PtGen.cmAtoms).all (fun p => f0Ok p.1 p.2) = true := by decide +kernel
+
+/-! ## Part 3 — part 1 on the embedded tables -/
+
+section generated
+variable {α : Type} [Mul α] [Div α] [NatCast α] [IntCast α]
+
+/-- every element with a Cordero line is served that line -/
+theorem generated_covalent_radius (z : Nat) (r dr : Dec) (h : CovRow.row z r dr ∈ PtGen.corderoRows) :
+    aget z (Cov.loadRows (α := α) PtGen.corderoRows)
+      = some ((r.toNum : α), some (dr.toNum * (Dec.mk 1 2).toNum)) := by
+  obtain ⟨pre, post, hsplit⟩ := List.append_of_mem h
+  rw [hsplit]
+  apply cov_radius_last_row
+  intro x hx e
+  -- a later line with the same Z contradicts the sortedness of the keys
+  have hs := nodup_of_incr _ cordero_keys_sorted
+  rw [hsplit, List.filterMap_append, List.filterMap_cons] at hs
+  simp only [covKey] at hs
+  have := (List.nodup_append.mp hs).2.1
+  rw [List.nodup_cons] at this
+  exact this.1 (List.mem_filterMap.mpr ⟨x, hx, e⟩)
+
+/-- every element is served slot Z of the embedded list -/
+theorem generated_crystal_structure (z : Nat) :
+    aget z (Crystal.load PtGen.crystalList) = PtGen.crystalList[z]? := crystal_is_index _ z
+
+/-- every row of the emission-line table is served to the element it names -/
+theorem generated_emission_lines (r : LineRow) (hr : r ∈ PtGen.lineRows) (z : Nat) (hz : zOf r.sym = some z) :
+    aget z (Lines.loadRows zOf PtGen.lineRows) = some (r.kAlpha, r.kBeta1) := by
+  obtain ⟨pre, post, hsplit, hlast⟩ :=
+    split_of_mem_nodup_filterMap (fun r : LineRow => zOf r.sym) PtGen.lineRows lines_elements_distinct r z hz hr
+  rw [hsplit]
+  exact lines_last_row zOf pre post r z hz hlast
+
+/-- every CFML entry is served to the charge state it names -/
+theorem generated_magnetic_coefficients (r : MagRow) (hr : r ∈ PtGen.magRows) (z : Nat) (hz : zOf r.sym = some z) :
+    ((aget (z, r.charge) (Mag.loadRows zOf PtGen.magRows)).getD {}).get r.jn = some r.values := by
+  rw [mag_coefficients]
+  apply magSpec_of_agree zOf z r.charge r.jn PtGen.magRows r hr ⟨hz, rfl, rfl⟩
+  intro x hx hk
+  apply magAgree_sound zOf PtGen.magRows mag_duplicates_agree r x hr hx
+  simp only [magKey, hk.1, hk.2.1, hk.2.2, hz]
+
+/-- every block of f0_WaasKirf.dat is served to its own symbol -/
+theorem generated_cm_entry (e : CMEntry) (he : e ∈ PtGen.cmEntries) :
+    aget e.symbol (CM.load PtGen.cmEntries) = some e := cm_entry_of_mem _ cm_symbols_distinct e he
+
+/-- every `<j0>` set of the embedded table evaluates to 1 within 0.5 % at Q = 0 -/
+theorem generated_j0_at_Q0 (r : MagRow) (hr : r ∈ PtGen.magRows) (hj : r.jn = .j0) :
+    ∃ x : ℝ, formfactor0 (r.values.map fun d => (d.toNum : ℝ)) 0 = some x ∧ |x - 1| ≤ 0.005 := by
+  have := List.all_eq_true.mp j0_sets_normalised r hr
+  rw [hj] at this
+  simp only [bne_self_eq_false, Bool.false_or] at this
+  exact j0_at_zero_of_ok r.values this
+
+/-- every higher-order set of the embedded table evaluates to 0 at Q = 0 -/
+theorem generated_jn_at_Q0 (r : MagRow) (hr : r ∈ PtGen.magRows) :
+    formfactorN (r.values.map fun d => (d.toNum : ℝ)) 0 = some 0 := by
+  have := List.all_eq_true.mp mag_rows_ok r hr
+  simp only [Bool.and_eq_true, beq_iff_eq] at this
+  exact jn_at_zero r.values this.2
+
+end generated
+
+/-! non-vacuity -/
+example : CovRow.row 84 ⟨140, 2⟩ ⟨4, 0⟩ ∈ PtGen.corderoRows := by decide +kernel
+example : PtGen.crystalList[80]? = some (some ⟨"Rhombohedral", [("a", ⟨299, 2⟩), ("alpha", ⟨7045, 2⟩)]⟩) := by
+  decide +kernel
+example : ∃ r ∈ PtGen.magRows, r.jn = .j0 ∧ zOf r.sym = some 26 ∧ r.charge = 2 := by decide +kernel
+example : (PtGen.magRows.filter (·.jn == .j0)).length = 97 := by decide +kernel
+
 end PtVerif.C20
